@@ -77,7 +77,7 @@ def make_ops(rng, cfg, profile, tier):
             elif r < 0.78:
                 ops.append({'op': 'CHANGE_INIT_KEPT', 'a': [rng.randrange(64), rng.randrange(1 << 16)]})
             elif r < 0.79:
-                ops.append({'op': 'ESTIMATE_CATALOG', 'a': [rng.randrange(4)]})
+                ops.append({'op': rng.choice(['ESTIMATE_CATALOG', 'ESTIMATE_CATALOG', 'ESTIMATE_NAN_REGION']), 'a': [rng.randrange(6)]})
             elif r < 0.87:
                 ops.append({'op': 'LLD', 'a': [rng.randrange(64), rng.randrange(1 << 16), rng.random() < 0.3, True, True]})
             elif r < 0.9:
@@ -105,8 +105,8 @@ def make_ops(rng, cfg, profile, tier):
             ops.append({'op': 'PER_OBS', 'a': [rng.randrange(1 << 16) % 5]})
         elif r < 0.81:
             ops.append({'op': 'SPLIT_PARTS', 'a': [rng.randrange(2, 6), rng.randrange(1 << 16) % 5, rng.random() < 0.3]})
-        elif r < 0.815:
-            ops.append({'op': rng.choice(['EXTRACT_PARTS', 'ROW_PARTS', 'FD_HESSIAN', 'REMOVE_REBUILD', 'REMOVE_REBUILD', 'MC_SUM']),
+        elif r < 0.817:
+            ops.append({'op': rng.choice(['EXTRACT_PARTS', 'ROW_PARTS', 'FD_HESSIAN', 'REMOVE_REBUILD', 'REMOVE_REBUILD', 'MC_SUM', 'ZERO_PROB']),
                         'a': [rng.randrange(2, 5), rng.randrange(1 << 16) % 5]})
         elif r < 0.82:
             ops.append({'op': 'ALIAS', 'a': [rng.randrange(64), rng.randrange(1 << 16) % 5, rng.randrange(1 << 16) % 5]})
@@ -533,6 +533,35 @@ class Session:
                           rows, oracle='I04.sim')
                 ctx.probe('object built after rows were removed from a Database that already served an object')
                 ctx.log(kind, len(keep_t))
+        elif kind == 'ZERO_PROB':
+            # a point at which some observations have probability exactly zero: the log likelihood is what the sum of the
+            # per-observation values is (minus infinity), scaled or not; at an ordinary point it is the finite sum
+            import biogeme.biogeme as bio
+            import biogeme.database as db
+            import biogeme.expressions as ex
+            zb = ex.Beta('zp_b', 0.5, None, None, 0)
+            zx = ex.Variable('x0')
+            t = self.table.copy()
+            bz = bio.BIOGEME(db.Database('zp', t), {'log_like': ex.log(ex.exp(-zb * zx * zx))}, parameters=self._params(a[0]))
+            bz.modelName = 'zp'
+            for v_ in ((0.5, 2000.0) if a[1] % 2 else (2000.0, 0.5)):
+                rows_ = [(-v_ * float(z_) ** 2) if v_ * float(z_) ** 2 < 700 else -math.inf for z_ in t['x0']]
+                sim_ = [float(z_) for z_ in bz.simulate({'zp_b': v_})['log_like']]
+                if any(math.isinf(w_) != math.isinf(g_) or (not math.isinf(w_) and abs(w_ - g_) > 1e-9 * max(1.0, abs(w_)))
+                       for w_, g_ in zip(rows_, sim_)):
+                    if all(v_ * float(z_) ** 2 < 700 or v_ * float(z_) ** 2 > 760 for z_ in t['x0']):
+                        ctx.fail('I04.sim', f'per-observation values at zp_b={v_}: {sim_}, expected {rows_}')
+                    continue
+                tot_ = sum(sim_)
+                for sc_ in (False, True):
+                    got_ = float(bz.calculate_likelihood([v_], scaled=sc_))
+                    want_ = tot_ / len(t) if (sc_ and not math.isinf(tot_)) else tot_
+                    if (math.isinf(want_) and got_ != want_) or (not math.isinf(want_) and abs(got_ - want_) > 1e-9 * max(1.0, abs(want_))):
+                        ctx.fail('I04.sum', f'log likelihood (scaled={sc_}) at zp_b={v_}: {got_!r}, the sum of the per-observation '
+                                            f'values is {want_!r}')
+                if math.isinf(tot_):
+                    ctx.probe('log likelihood at a point where an observation has probability zero')
+            ctx.log(kind, a[0])
         elif kind == 'MC_SUM':
             # a simulated (Monte-Carlo) likelihood: the log likelihood of the object is the weighted sum of what its
             # simulation reports per observation, before and after the first simulation (one set of draws per object)
@@ -732,6 +761,18 @@ class Session:
                 want_, _, _ = self.ref_ll(p_, rec['table'])
                 self._cmp('initial log likelihood after change_init_values on an object that computed it before',
                           float(b.calculate_init_likelihood()), want_, oracle='I04.init')
+                if a[1] % 2:
+                    # ... and does not follow the points at which derivatives are evaluated while iterations are saved
+                    b.biogeme_parameters.set_value('save_iterations', True)
+                    for k_ in (1, 2):
+                        b.calculate_likelihood_and_derivatives(self.vec(self.point(a[1] + k_)), scaled=False, hessian=False, bhhh=False)
+                    b.biogeme_parameters.set_value('save_iterations', False)
+                    self._cmp('initial log likelihood after derivatives were evaluated elsewhere while iterations are saved',
+                              float(b.calculate_init_likelihood()), want_, oracle='I04.init')
+                    for f_ in ('__m.iter',):
+                        if os.path.exists(f_):
+                            os.remove(f_)
+                    ctx.probe('initial log likelihood asked again after evaluations with saved iterations')
             elif kind == 'H_ESTBOOT_FAIL':
                 if self.cfg['K'] >= 2:
                     # fault injection: the optimiser fails inside the bootstrap loop (k-th call); the caller
@@ -873,8 +914,14 @@ class Session:
             own_l = ex.Beta('ec_lin', 0.0, None, None, 0)
             own_s = ex.Beta('ec_sq', 0.0, None, None, 0)
             x0 = ex.Variable('x0')
-            cat = Catalog.from_dict('ec_shape', {'lin': own_l * x0, 'sq': own_s * x0 * x0})
-            dev = shared + cat - ex.Variable('w')
+            bare = bool(a[0] % 2)      # the alternatives of the catalog are the parameters themselves
+            if bare:
+                cat = Catalog.from_dict('ec_shape', {'lin': own_l, 'sq': own_s})
+                dev = shared * x0 + cat - ex.Variable('w')
+                ctx.probe('catalog whose alternatives are bare parameters')
+            else:
+                cat = Catalog.from_dict('ec_shape', {'lin': own_l * x0, 'sq': own_s * x0 * x0})
+                dev = shared + cat - ex.Variable('w')
             ll = -(dev * dev) - 0.1 * (shared * shared)
             B = bio.BIOGEME(db.Database('ec', self.table.copy()), ll, parameters=self._params(1))
             B.modelName = 'ec'
@@ -883,6 +930,8 @@ class Session:
             ws = [float(v) for v in self.table['w']]
 
             def ll_of(pw, s_, o_):
+                if bare:
+                    return sum(-(s_ * x_ + o_ - w_) ** 2 - 0.1 * s_ * s_ for x_, w_ in zip(xs, ws))
                 return sum(-(s_ + o_ * x_ ** pw - w_) ** 2 - 0.1 * s_ * s_ for x_, w_ in zip(xs, ws))
             for cid, pw, own in (('ec_shape:lin', 1, own_l), ('ec_shape:sq', 2, own_s)):
                 if cid not in res:
@@ -896,6 +945,36 @@ class Session:
                                               f'alternative alone, holds {own.initValue!r}; its estimate is {est_[own.name]!r}')
             ctx.probe('every alternative of a catalog estimated in one call')
             ctx.log(kind)
+        elif kind == 'ESTIMATE_NAN_REGION':
+            # a likelihood that is not a number in a region that the first trial step reaches (y log(rate) - rate without a
+            # positivity bound, started at 0.5 with a mean of y below 0.15): the default family of algorithms rejects such
+            # trial points and returns the maximum, rate = mean of y
+            import biogeme.biogeme as bio
+            import biogeme.database as db
+            import biogeme.expressions as ex
+            t = self.table.copy()
+            t['yy'] = [0.1 + 0.02 * (i_ % 5) for i_ in range(len(t))]
+            ybar = sum(t['yy']) / len(t)
+            algo = ['simple_bounds', 'simple_bounds_newton', 'simple_bounds_BFGS'][a[0] % 3]
+            rate = ex.Beta('nr_rate', 0.5, None, None, 0)
+            B = bio.BIOGEME(db.Database('nr', t), ex.Variable('yy') * ex.log(rate) - rate, parameters=self._params(1))
+            B.modelName = 'nr'
+            B.biogeme_parameters.set_value('optimization_algorithm', algo)
+            r_ = B.estimate()
+            e_ = float(r_.get_beta_values()['nr_rate'])
+            if not (e_ > 0):
+                ctx.fail('I07.recompute', f'estimate [{algo}] of a rate whose likelihood exists for positive values only: {e_!r}')
+            want_ = sum(float(y_) * math.log(e_) - e_ for y_ in t['yy'])
+            self._cmp(f'estimate [{algo}] next to a region without likelihood: reported final log likelihood vs the likelihood at '
+                      'the returned estimate', float(r_.data.logLike), want_, rel=1e-7, oracle='I07.recompute')
+            if float(r_.data.logLike) < float(r_.data.initLogLike) - 1e-9:
+                ctx.fail('I07.improve', f'estimate [{algo}]: final log likelihood {r_.data.logLike!r} below the initial one '
+                                        f'{r_.data.initLogLike!r}')
+            if r_.algorithm_has_converged() and abs(e_ - ybar) > 0.01 * ybar:
+                ctx.fail('I07.stationary', f'estimate [{algo}] reports convergence at rate={e_!r}; the maximum is at the mean of y, '
+                                           f'{ybar!r}')
+            ctx.probe('estimation next to a region where the likelihood is not a number')
+            ctx.log(kind, algo)
         elif kind == 'CHANGE_INIT_KEPT':
             # the results of an estimation are a record: later by-name changes of the starting values of the object that
             # produced them do not alter them (checked for every kept record at the start of every operation)
